@@ -4,10 +4,11 @@ package props
 
 import (
 	"cmp"
-	"sort"
 	"fmt"
 	"math"
 	"math/rand/v2"
+	"runtime"
+	"sort"
 
 	"github.com/creachadair/mds/slice"
 	"verif/harness/fw"
@@ -30,7 +31,7 @@ func init() {
 					"LCS/LCSFunc: every pair over alphabet 2 x length <= 7 and alphabet 3 x length <= 5 (exhaustive) plus random pairs up to 300 of very different lengths and pairs of 4100..11700 elements (length products past 2^24..2^27). " +
 					"Checks: returned elements identify strictly increasing positions of the input (for LCS: of one input, and their values form a subsequence of the other), strict / non-strict order under the comparator used, length == quadratic reference, inputs unmodified; 8 goroutines call LIS/LNDS/LCS concurrently on unshared inputs (plain and under -race), a comparison callback that itself calls LIS (re-entrancy), and LCS instantiated with interface-typed elements; interleaved with all of it, calls that are abandoned half-way (the comparison function panics after m calls and the caller recovers) so that every verified call also runs right after a failed one. " +
 					"distinct = the input (enumerated without repetition; random by hash); non-trivial = the input has a repeated value (ties)",
-				Required:     []string{"lis_inputs", "lnds_inputs", "lcs_pairs", "wide_comparator_inputs", "reversed_comparator_inputs", "lcs_unequal_length_pairs", "structured_two_run_inputs", "concurrent_calls", "reentrant_calls", "interface_element_cases", "abandoned_calls", "very_large_inputs"},
+				Required:     []string{"lis_inputs", "lnds_inputs", "lcs_pairs", "wide_comparator_inputs", "reversed_comparator_inputs", "lcs_unequal_length_pairs", "structured_two_run_inputs", "concurrent_calls", "reentrant_calls", "interface_element_cases", "abandoned_calls", "very_large_inputs", "wraparound_schedules"},
 				Exhaustive:   true,
 				Assumptions:  []string{"quadratic DP references for LIS/LNDS/LCS lengths"},
 				CoverPkgs:    []string{"github.com/creachadair/mds/slice"},
@@ -699,6 +700,50 @@ func runC12(c *fw.Ctx) {
 			c.Add("lcs_pairs", 1)
 			c.Add("lcs_unequal_length_pairs", 1)
 		}
+	}
+	// wrap-around schedule: a larger call, exactly N one-element calls (N around
+	// 2^8, 2^9, 2^16, 2^17; one N per block), then a larger call on other content
+	if c.Begin(idx + 400200 + c.Block) {
+		var gaps []int // windows of +-5 around 2^8, 2^9, 2^16, 2^17: 44 values over 16 blocks x 3 rounds
+		for _, centre := range []int{255, 510, 65535, 131071} {
+			for d := -5; d <= 5; d++ {
+				gaps = append(gaps, centre+d)
+			}
+		}
+		old := runtime.GOMAXPROCS(1)
+		func() {
+			defer runtime.GOMAXPROCS(old)
+			for round := 0; round < 3; round++ {
+				gap := gaps[(3*c.Block+round)%len(gaps)]
+				vs := make([]int, 30+round)
+				for i := range vs {
+					vs[i] = (i*7)%13 + i/2
+				}
+				c12seq(c, vs, round%len(c12cmps))
+				c12lcs(c, vs[:12], vs[5:20])
+				one := []int{5}
+				for i := 0; i < gap; i++ {
+					switch (c.Block + round) % 3 { // one kind of small call per round
+					case 0:
+						slice.LIS(one)
+					case 1:
+						slice.LNDS(one)
+					default:
+						slice.LCS(one, one)
+					}
+					if i%4096 == 0 {
+						c.Step()
+					}
+				}
+				ws := make([]int, 30+round)
+				for i := range ws {
+					ws[i] = 100 - (i*5)%17 + i
+				}
+				c12lcs(c, ws[3:17], ws[:11])
+				c12seq(c, ws, (round+1)%len(c12cmps))
+			}
+		}()
+		c.Add("wraparound_schedules", 1)
 	}
 	if c.Block == 0 && c.Begin(idx+500000) {
 		// nil and empty inputs
